@@ -224,6 +224,11 @@ def gen_program(rng: random.Random) -> dict:
                     s = s.replace("'", "")
                 elif rng.random() < 0.5:
                     s += "'"                                          # the string ends with an escaped quote
+                if rng.random() < 0.2:
+                    # a backslash in front of a letter is two characters like any others (no escape sequences besides \' exist)
+                    k = rng.randint(0, len(s))
+                    if k == len(s) or s[k] != "'":
+                        s = s[:k] + "\\" + rng.choice(["n", "n", "n", "n", "t", "0", "x41", "a", "e"]) + s[k:]
                 out.append(["text", counter[0], s])
                 if rng.random() < 0.35:
                     # directly followed by further .text directives: each string is encoded on its own
